@@ -21,7 +21,6 @@ import (
 	"github.com/AdguardTeam/AdGuardHome/internal/querylog"
 	"github.com/AdguardTeam/dnsproxy/proxy"
 	"github.com/ameshkov/dnscrypt/v2"
-	"github.com/ameshkov/dnsstamps"
 	"github.com/miekg/dns"
 	"github.com/quic-go/quic-go"
 )
@@ -382,10 +381,11 @@ func (h *c16hSrv) send(q *c16hReq) (err error) {
 	case c16hDoQ:
 		resp, err = h.doDoQ(p.Addr(proxy.ProtoQUIC).String(), q.SNI, m)
 	case c16hDNSCrypt:
-		var st dnsstamps.ServerStamp
-		st, err = h.dcRC.CreateStamp(p.Addr(proxy.ProtoDNSCrypt).String())
-		if err != nil {
-			return err
+		// (the stamp's type is not named here: naming its package would make
+		// the go command list it as a direct requirement in go.mod)
+		st, stErr := h.dcRC.CreateStamp(p.Addr(proxy.ProtoDNSCrypt).String())
+		if stErr != nil {
+			return stErr
 		}
 		cl := &dnscrypt.Client{Net: "udp", Timeout: c16hTimeout}
 		var ri *dnscrypt.ResolverInfo
@@ -687,7 +687,7 @@ func c16hGenReq(r *vfRand, host string, strict bool, quic bool) *c16hReq {
 			// a path id wins over the name, which is then not looked at
 			q.Want = strings.ToLower(l)
 		case 6:
-			q.Path, q.Want, q.pathKind = "/dns-query/a/b", "!", "extra"
+			q.Path, q.Want, q.pathKind = vfPick(r, []string{"/dns-query/a/b", "/DNS-Query/" + c16hLabel(r), "/x/dns-query"}), "!", "extra-or-route"
 		default:
 			q.Path, q.Want, q.pathKind = "/dns-query/bad!id", "!", "bad-label"
 		}
@@ -775,6 +775,7 @@ func c16hPrelude() (hs []*c16hHist) {
 		c16hMk(c16hDoT, "alice.example.org", "", "", "", "!"),
 		c16hMk(c16hDoT, "alice."+H, "", "", "", "alice"),
 		c16hMk(c16hDoHTLS, H, "/dns-query/a/b", H, "", "!"),
+		c16hMk(c16hDoHTLS, H, "/DNS-QUERY/mallory", H, "", "!"),
 		c16hRe(H, true, false),
 		c16hMk(c16hUDP, "", "", "", "", ""),
 		c16hMk(c16hTCP, "", "", "", "", ""),
